@@ -24,6 +24,9 @@ if "--benign" in args:
     args.remove("--benign"); do_seeds = False
 if "--corpus" in args:
     i = args.index("--corpus"); corpora = [args[i + 1]]; del args[i:i + 2]; do_seeds = False
+verbose = "-v" in args
+if verbose:
+    args.remove("-v")
 only = set(args)
 ENV = dict(os.environ, VERIF_BUILD_SLOTS=os.environ.get("VERIF_BUILD_SLOTS", "8"), VERIF_CACHE_KEEP=os.environ.get("VERIF_CACHE_KEEP", "600"))
 
@@ -76,7 +79,7 @@ with ThreadPoolExecutor(jobs) as ex:
             print("ALARM  %s (exit %s)" % (name, rc), flush=True)
             for x in v[:8]:
                 print("         " + x, flush=True)
-        elif "-v" in sys.argv:
+        elif verbose:
             print("ok     %s" % name, flush=True)
 print("%s: %d patches checked, %d problem(s)" % (prop, len(todo), bad))
 sys.exit(1 if bad else 0)
